@@ -411,8 +411,55 @@ fn run_ro<C: Context<NumericTypes = DefaultNumericTypes>>(c: &Case, ctx: &C, out
     out.push(format!("disabled {}", ctx.are_builtin_functions_disabled() as u8));
 }
 
+/// model validation helpers (mirsym/validate_models.py): facts about std that mirsym models natively
+fn charmodel() {
+    let mut ws = vec![];
+    let mut widths = [0u32; 5];
+    let mut first = [0u32; 5];
+    for cp in 0..=0x10ffffu32 {
+        if let Some(c) = char::from_u32(cp) {
+            if c.is_whitespace() {
+                ws.push(cp);
+            }
+            let w = c.len_utf8();
+            if widths[w] == 0 {
+                first[w] = cp;
+            }
+            widths[w] += 1;
+        }
+    }
+    println!("whitespace {}", ws.iter().map(|x| format!("{:x}", x)).collect::<Vec<_>>().join(","));
+    println!("utf8first {:x} {:x} {:x} {:x}", first[1], first[2], first[3], first[4]);
+}
+
+fn parsetable() {
+    let stdin = std::io::stdin();
+    for line in stdin.lock().lines() {
+        let line = line.unwrap();
+        let s = unhexd(&line);
+        let f = s.parse::<f64>();
+        let i = s.parse::<i64>();
+        let h = i64::from_str_radix(&s, 16);
+        let b = s.parse::<bool>();
+        println!(
+            "{} {} {} {} {}",
+            line,
+            f.map(|x| format!("F:{:016x}", x.to_bits())).unwrap_or("-".into()),
+            i.map(|x| x.to_string()).unwrap_or("-".into()),
+            h.map(|x| x.to_string()).unwrap_or("-".into()),
+            b.map(|x| (x as u8).to_string()).unwrap_or("-".into())
+        );
+    }
+}
+
 fn main() {
     let args: Vec<String> = std::env::args().collect();
+    if args.len() > 1 && args[1] == "--charmodel" {
+        return charmodel();
+    }
+    if args.len() > 1 && args[1] == "--parsetable" {
+        return parsetable();
+    }
     let input: Box<dyn BufRead> = if args.len() > 1 {
         Box::new(std::io::BufReader::new(std::fs::File::open(&args[1]).unwrap()))
     } else {
